@@ -104,6 +104,11 @@ where
         }
     }
 
+    /// Keeps the time-comparison tolerance small relative to the integration interval.
+    pub fn limit_tolerance(&mut self, span: Float) {
+        self.tol = self.tol.min(1e-3 * span.abs());
+    }
+
     /// Consumes the handler and returns all collected data.
     pub fn into_payload(
         self,
